@@ -66,6 +66,32 @@ type parseCase struct {
 	SchedSeed uint64           `json:"sched_seed"`
 	Decisions []simrt.Decision `json:"decisions,omitempty"`
 	Shrink    []string         `json:"shrink_strings,omitempty"`
+	// Small, if set, is the same pumped input at a quarter of the size: the linearity oracle
+	// compares the simulated time of the two parses.
+	Small *pparse.Call `json:"small,omitempty"`
+}
+
+// SuperlinearFactor: a parse of 4n bytes may take at most this many times the simulated time of
+// the parse of n bytes of the same pumped input (4 for linear time, 16 for quadratic).
+const SuperlinearFactor = 7
+
+// checkLinear applies the scale-free linearity oracle to a pair of pumped inputs.
+func checkLinear(small, big pparse.Call, variant int, schedSeed uint64) (*wk.Failure, int64) {
+	ch1, _ := pparse.ChooserFor(0, schedSeed)
+	_, r1 := pparse.RunOne(small, ch1, int64(StepsPerByte)*int64(small.Len()+64))
+	ch2, _ := pparse.ChooserFor(0, schedSeed)
+	_, r2 := pparse.RunOne(big, ch2, int64(StepsPerByte)*int64(big.Len()+64))
+	if r1.Budget || r2.Budget || r1.Deadlock || r2.Deadlock {
+		return nil, r1.Steps + r2.Steps // reported by the absolute bound
+	}
+	if r2.Steps > SuperlinearFactor*r1.Steps+100_000 {
+		pc := parseCase{Call: big, Small: &small, Variant: variant, SchedSeed: schedSeed}
+		b, _ := json.Marshal(pc)
+		return &wk.Failure{Class: "superlinear", Site: "parse time grows faster than the input",
+			Detail: fmt.Sprintf("parsing %d bytes takes %d simulated steps but %d bytes of the same pumped input (%q...) take %d: factor %.1f for 4x the input (linear = 4, quadratic = 16; bound %d)",
+				small.Len(), r1.Steps, big.Len(), trunc(big.Input[len(big.Input)-40:], 40), r2.Steps, float64(r2.Steps)/float64(r1.Steps+1), SuperlinearFactor), Replay: b}, r1.Steps + r2.Steps
+	}
+	return nil, r1.Steps + r2.Steps
 }
 
 type parseWork struct {
@@ -276,6 +302,14 @@ func C05(c *wk.Ctx) {
 	if c.Mode == "replay" {
 		var pc parseCase
 		readReplay(c, &pc)
+		if pc.Small != nil {
+			f, steps := checkLinear(*pc.Small, pc.Call, pc.Variant, pc.SchedSeed)
+			u := wk.NewUnit(0)
+			u.Evals, u.Steps = 2, steps
+			u.AddFail(f)
+			c.Emit(u)
+			return
+		}
 		var dec []simrt.Decision
 		if pc.Decisions != nil {
 			dec = pc.Decisions
@@ -347,6 +381,23 @@ func C05(c *wk.Ctx) {
 				if !do(w.seededCall(r, c.Tier == "thorough"), i) {
 					break
 				}
+			}
+			// linearity: the same pumped input at n and 4n bytes
+			size := 3 << 10
+			if c.Tier == "thorough" {
+				size = 12 << 10
+			}
+			for i := 0; i < 2; i++ {
+				small, big, kind := corpus.PumpPair(r, size)
+				entry := "file"
+				if r.Intn(4) == 0 {
+					entry = "expr"
+				}
+				f, steps := checkLinear(pparse.Call{Entry: entry, Input: small, Kind: kind}, pparse.Call{Entry: entry, Input: big, Kind: kind}, i, c.UnitSeed(run, uint64(7000+i)))
+				u.Evals += 2
+				u.Steps += steps
+				u.Counters["linearity_pairs"]++
+				u.AddFail(f)
 			}
 		}
 		u.Counters["max_steps_per_byte_x1000"] = int64(maxRatio * 1000)
